@@ -631,6 +631,9 @@ func parseExcludeFile(openFile openFileFunc) (excludeIPs scan.IPContainer, err e
 			return
 		}
 	}
+	if err = scanner.Err(); err != nil {
+		return
+	}
 	excludeIPs = ranger
 	return
 }
@@ -656,6 +659,9 @@ func parsePortsFile(openFile openFileFunc) (result []*scan.PortRange, err error)
 			return nil, err
 		}
 		result = append(result, ports)
+	}
+	if err = scanner.Err(); err != nil {
+		return nil, err
 	}
 	return
 }
